@@ -55,6 +55,7 @@ Definition rval_eqb (a b : rval) : bool :=
   | VList x, VList y => list_eqb String.eqb x y
   | VStream x l, VStream y l' =>
       list_eqb (fun e f => sid_eqb (e_id e) (e_id f) && list_eqb String.eqb (e_fv e) (e_fv f)) x y && sid_eqb l l'
+  | VZSet x, VZSet y => list_eqb (pair_eqb String.eqb Z.eqb) x y
   | _, _ => false
   end.
 Definition rstate_eqb (a b : rstate) : bool :=
